@@ -111,7 +111,7 @@ func solveOne(o *Obligation, idx int, dir string, opts solveOpts) {
 		// reachability / satisfiability cover: the hypotheses must NOT prove
 		// false. Finding a model of quantified hypotheses is out of reach for
 		// the solvers, so the cover passes unless some solver derives unsat.
-		t := 2
+		t := 1
 		n := 1
 		if opts.agree {
 			t, n = 10, len(solvers)
